@@ -167,6 +167,31 @@ func init() {
 					add(cacheIn{Cache: true, Case: c, Thr: thr, Seed: 12, MissPct: 30, DropPct: 30})
 				}
 			}
+			// dedicated: pattern field whose SHORT keywords sit in cached conjunctions while the conjunctions that are
+			// parsed on every build carry longer ones (anything a holder learns only while parsing is missing on a
+			// warm build); probed with texts of every length from 0
+			for _, kind := range []string{"kgroups", "compact"} {
+				kws := func(inc bool, ss ...string) eExpr {
+					l := make([]TV, len(ss))
+					for i, s := range ss {
+						l[i] = tvStr(s)
+					}
+					return eExpr{F: 1, Inc: inc, V: tvSlice("[]string", l...)}
+				}
+				c := eCase{Kind: kind, Policy: "error", Configs: map[int]string{1: "ac_matcher"}}
+				c.Docs = []eDoc{
+					{ID: 1, Cons: []eConj{{kws(true, "re", "red", "blue", "x y")}}},                                                  // 4 values > 2: cached
+					{ID: 2, Cons: []eConj{{kws(true, "blue")}}},                                                                      // parsed on every build
+					{ID: 3, Cons: []eConj{{kws(false, "a"), {F: 0, Inc: true, V: longInts(5)}}}},                                     // cached (long list)
+					{ID: 4, Cons: []eConj{{kws(true, "green", "blues")}, {kws(false, "yellow"), {F: 0, Inc: true, V: longInts(2)}}}}, // parsed
+					{ID: 5, Cons: []eConj{{kws(true, "日", "日本語", "é")}}},                                                             // cached
+				}
+				for _, t := range []string{"", "r", "re", "a", "xa", "e", "red", "blue", "x y", "日", "日本", "é", "ared", "blues", "zz", "yellow a"} {
+					c.Queries = append(c.Queries, eQuery{A: []eAssign{{F: 1, V: tvStr(t)}}}, eQuery{A: []eAssign{{F: 1, V: tvStr(t)}, {F: 0, V: tvInt("int", 1)}}})
+				}
+				add(cacheIn{Cache: true, Case: c, Thr: 2, Seed: 21, MissPct: 0, DropPct: 0})
+				add(cacheIn{Cache: true, Case: c, Thr: 2, Seed: 22, MissPct: 30, DropPct: 0})
+			}
 			for i := 0; i < n; i++ {
 				thr := []int{0, 2, 2}[i%3]
 				if i%9 == 2 { // the default threshold: lists of 520+ distinct values (slow in the model, so fewer)
@@ -227,7 +252,8 @@ func init() {
 						a = append(a, eAssign{F: 0, V: tvInt("int", pick(r, []int64{0, 1, 2, int64(big - 1), int64(big), int64(big + 1), r.I64(0, 45), r.I64(0, int64(big+3))}))})
 					}
 					if r.Chance(60) {
-						a = append(a, eAssign{F: 1, V: tvStr(pick(r, words) + " " + pick(r, words))})
+						w := pick(r, words)
+						a = append(a, eAssign{F: 1, V: tvStr(pick(r, []string{w + " " + pick(r, words), w, string([]rune(w)[:1]), "x" + w}))})
 					}
 					if r.Chance(80) {
 						v := r.I64(-60, 3100)
